@@ -314,3 +314,40 @@ Proof.
   intros HM. unfold check_C01, check_values. rewrite map_length, seq_length, Nat.eqb_refl.
   rewrite (check_values_from_model N pssm s HM _ 0); auto.
 Qed.
+
+(* ---------- soundness of the equality checkers ---------- *)
+
+Lemma row_eqb_eq a b : row_eqb a b = true -> a = b.
+Proof.
+  revert b. induction a as [|x a IH]; intros [|y b] H; simpl in H; try discriminate; auto.
+  apply andb_true_iff in H. destruct H as [H1 H2]. apply Z.eqb_eq in H1. f_equal; auto.
+Qed.
+
+Lemma rows_eqb_eq a b : rows_eqb a b = true -> a = b.
+Proof.
+  revert b. induction a as [|x a IH]; intros [|y b] H; simpl in H; try discriminate; auto.
+  apply andb_true_iff in H. destruct H as [H1 H2]. apply row_eqb_eq in H1. f_equal; auto.
+Qed.
+
+Lemma obs_eqb_eq (a b : obs) : obs_eqb a b = true -> a = b.
+Proof.
+  destruct a as [[m1 r1]|], b as [[m2 r2]|]; simpl; intros H; try discriminate; auto.
+  apply andb_true_iff in H. destruct H as [H1 H2].
+  apply Nat.eqb_eq in H1. apply rows_eqb_eq in H2. subst. reflexivity.
+Qed.
+
+Theorem check_same_results_sound g others :
+  check_same_results g others = true -> Forall (fun o => o = g) others.
+Proof.
+  unfold check_same_results. intros H. rewrite forallb_forall in H.
+  apply Forall_forall. intros o Ho. symmetry. apply obs_eqb_eq. apply H. exact Ho.
+Qed.
+
+Theorem check_subrange_sound full sub a b :
+  check_subrange full sub a b = true ->
+  exists m r1 r2, full = Some (m, r1) /\ sub = Some (m, r2) /\ r2 = firstn (b - a) (skipn a r1).
+Proof.
+  unfold check_subrange. destruct full as [[m1 r1]|], sub as [[m2 r2]|]; try discriminate.
+  intros H. apply andb_true_iff in H. destruct H as [H1 H2].
+  apply Nat.eqb_eq in H1. apply rows_eqb_eq in H2. subst. exists m2, r1, (firstn (b - a) (skipn a r1)). auto.
+Qed.
